@@ -106,7 +106,8 @@ def failed_mutations(trace):
             if err == "EEXIST":
                 continue
         elif name == "rmdir" or (name == "unlinkat" and "AT_REMOVEDIR" in args):
-            if err in ("ENOTEMPTY", "EEXIST"):
+            # (EACCES / EPERM: the directory above does not let entries go, empty or not - the emptied directory stays)
+            if err in ("ENOTEMPTY", "EEXIST", "EACCES", "EPERM"):
                 continue
         elif name not in ("rename", "renameat", "renameat2", "unlink", "unlinkat", "chmod", "fchmodat", "symlink", "symlinkat"):
             continue
@@ -123,7 +124,8 @@ def symlink_section(path, target):
 def natural_failures(rng, n):
     scns = []
     hows = ["link-name-dangling", "link-name-empty-file", "link-in-readonly-dir", "link-free", "readonly-dir-backup", "readonly-dir-delete", "readonly-dir-add",
-            "dir-at-output", "rename-dest-dir", "reject-name-dir", "readonly-dir-rename", "copy-dest-readonly-dir"]
+            "dir-at-output", "rename-dest-dir", "reject-name-dir", "readonly-dir-rename", "copy-dest-readonly-dir",
+            "readonly-top-delete", "readonly-top-rename"]
     for i in range(n):
         how = hows[i % len(hows)]
         o = {}
@@ -138,6 +140,15 @@ def natural_failures(rng, n):
                 s["tree"][p] = ("R", 0o644, b"")
             elif how == "link-in-readonly-dir":
                 s["tree"]["ld"] = ("D", 0o555, b"")
+        elif how.startswith("readonly-top"):
+            # a file goes away from a directory that keeps another file, and the directory ABOVE lets nothing be removed: the
+            # clean-up of emptied directories asks for the directory, is told no (EACCES, not ENOTEMPTY), and that is all
+            kind = "delete" if how.endswith("delete") else "rename"
+            sec = scen.section(rng, "top/d/f", kind=kind, fmt=("git" if kind == "rename" else rng.choice(["unified", "git"])), nonl=False)
+            if kind == "rename":
+                sec = dict(sec, newpath="top/d/g", text=emit.emit_git("top/d/f", "top/d/g", sec["hs"], kind="rename"))
+            s = scen.base_scenario(rng, [sec], opts=o)
+            s["tree"]["top"] = ("D", 0o555, b""); s["tree"]["top/d"] = ("D", 0o755, b""); s["tree"]["top/d/keep"] = ("R", 0o644, b"k\n")
         else:
             kind = {"readonly-dir-delete": "delete", "readonly-dir-add": "add", "rename-dest-dir": "rename", "readonly-dir-rename": "rename",
                     "copy-dest-readonly-dir": "copy"}.get(how, "change")
@@ -201,6 +212,11 @@ def run_c10(run_, rng, tier, exe):
         run_.count("%d %s %d %s" % (i, name, k, e), True, "fault %s %s -> exit %d" % (name, e, r["exit"]))
         same = r["exit"] == r0["exit"] and tree_no_meta(r["tree"]) == tree_no_meta(r0["tree"])
         ok = (r["exit"] == 2 and r["stderr"].strip() != b"") or same
+        if name == "rmdir" and e == "EACCES" and r["exit"] == r0["exit"]:
+            # "not allowed to remove this directory" ends the walk over emptied directories like "not empty" does: the directory
+            # stays, everything else is as in the fault-free run
+            t0_, t1_ = tree_no_meta(r0["tree"]), tree_no_meta(r["tree"])
+            ok = ok or all(t1_.get(p_) == v_ for p_, v_ in t0_.items()) and all(v_[0] == "D" for p_, v_ in t1_.items() if p_ not in t0_)
         if r.get("timed_out"):
             ok = False
         if not ok:
@@ -252,6 +268,8 @@ def run_c10(run_, rng, tier, exe):
         run_.count("natural " + l2.model_line(s), True, "natural failure %s: %s -> exit %d" % (s["how"], failed[0][0] + " " + failed[0][2] if failed else "none", r["exit"]))
         rep = dict(scenario=describe(s), failed_calls=[f[3] for f in failed], impl=dict(exit=r["exit"], stdout=r["stdout"].decode("latin-1")[-600:],
                    stderr=r["stderr"].decode("latin-1")[-400:], tree=fmt_tree(r["tree"])))
+        if s["how"].startswith("readonly-top") and r["exit"] != 0:
+            bad.append((i, "%s: the file went where the patch says and the run ends with exit status %d (%s)" % (s["how"], r["exit"], r["stderr"].decode("latin-1").strip()[-120:]), rep))
         if failed and (r["exit"] != 2 or not r["stderr"].strip()):
             bad.append((i, "%s failed with %s (%s) and the run ends with exit status %d%s" % (failed[0][0], failed[0][2], s["how"], r["exit"],
                         "" if r["stderr"].strip() else " without a diagnostic"), rep))
